@@ -1328,6 +1328,60 @@ pub fn c17(ctx: &Ctx, rep: &mut Report) {
                     rep.count("defect_not_an_error");
                 }
             }
+            // --- the same reading with one transient source error: the failing call is retried and the
+            // format error that finally arrives must carry the same fields ("every format error")
+            let expected = t.obs.iter().find_map(|o| match o {
+                Obs::Err(e) if e.obs.is_parse() => Some(e.obs.clone()),
+                _ => None,
+            });
+            if let (Some(expected), true) = (expected, t.read_calls > 0) {
+                let k = 1 + rng.below(t.read_calls);
+                let kind = *rng.pick(&crate::src::ERR_KINDS);
+                let fault = crate::src::Fault { at_call: k, on_seek: false, kind, repeat: 1 };
+                let got = guarded(|| {
+                    let mut rig = crate::seqmon::make_rig(fmt, input.clone(), &cfg, vec![fault]);
+                    let mut io_seen = 0usize;
+                    for _ in 0..max_calls + 3 {
+                        rig.begin_op();
+                        match rig.r().next() {
+                            Obs::Err(e) if e.obs.is_parse() => return (Some(e), io_seen),
+                            Obs::Err(e) => {
+                                if matches!(e.obs, ErrObs::Io { .. }) {
+                                    io_seen += 1;
+                                }
+                            }
+                            Obs::End => return (None, io_seen),
+                            Obs::Rec(_) => {}
+                        }
+                    }
+                    (None, io_seen)
+                });
+                rep.evaluations += 1;
+                let mut j = replay();
+                j["transient_fault_at_read_call"] = json!(k);
+                j["fault_kind"] = json!(format!("{:?}", kind));
+                match got {
+                    Err(c) => caught_violation(rep, &c, "reading with a retried source error", j),
+                    Ok((_, 0)) => rep.count("transient_fault_not_reached"),
+                    Ok((Some(e), _)) => {
+                        rep.count("format_errors_after_retried_source_error");
+                        if e.obs != expected {
+                            rep.violation(
+                                &format!("{}-error-fields-after-retried-io-error", fmt.name()),
+                                format!("after a retried source error the reader reports {:?}; without the fault it reports {:?}", e.obs, expected),
+                                j,
+                            );
+                        } else if let Err(m) = check_message(&e) {
+                            rep.violation("message-text", m, j);
+                        }
+                    }
+                    Ok((None, _)) => {
+                        // after a source error the readers may also report the end of input (C06 allows it);
+                        // this property speaks about the format errors that are reported
+                        rep.count("retries_ending_without_format_error");
+                    }
+                }
+            }
             // the same error through record-set reads (plain and exact-count): a set read may
             // report the error ahead of the records before it, but its fields must be the same
             if !r.ambiguous() && r.has_err() {
